@@ -413,7 +413,7 @@ def tlc_trace(trace_path, strict, keys, workdir, name, module="SeqTrace", timeou
     env["TRACE"] = trace_path
     if extra_env:
         env.update(extra_env)
-    cmd = ["java", "-Xmx" + heap, "-Xss16m", "-XX:+UseSerialGC", "-XX:TieredStopAtLevel=1", "-cp", JAVA_CP, "tlc2.TLC",
+    cmd = ["java", "-Xmx" + heap, "-Xss16m", "-XX:+UseSerialGC", "-XX:TieredStopAtLevel=1", "-cp", JAVA_CP, "tlc2.TLC", "-noGenerateSpecTE",
            "-workers", "1", "-metadir", md, "-config", cfgp, os.path.join(SPEC, module + ".tla")]
     try:
         r = sh(cmd, timeout=timeout, env=env, cwd=SPEC)
